@@ -113,7 +113,9 @@ claim("C03",
       "enumerates the lattice (35 latitudes x 68 longitudes x 9 heights) and, in thorough, checks the closed form against the "
       "sphere. Trace_Cart (TLC) decides on values observed from the real code: llh2xyz within 1 um of the closed form on the "
       "lattice for 4 shipped + random ellipsoids (equator and poles on every ellipsoid, +-360 deg longitude turns, angle-object "
-      "arguments bit-identical), xyz2llh longitude in [-180, 180] and llh2xyz(xyz2llh(P)) = P within 0.02 mm for Cartesian points "
+      "arguments bit-identical) AND at arbitrary positions (random latitudes, longitudes in [-360, 360], a hair off the equator / "
+      "poles / quadrant meridians) with the sines and cosines from the specification's own series (Trig.tla); the shipped "
+      "ellipsoids judged on their published constants; xyz2llh longitude in [-180, 180] and llh2xyz(xyz2llh(P)) = P within 0.02 mm for Cartesian points "
       "generated both from geodetic strata and directly in all octants (incl. 1 mm..100 m off the axis, z = 0, heights -10 km..4e7 m).",
       "Trusted: TLC, BigFix; alpha's exact decimal encoding; lattice inputs are degrees(atan2(p, q)) (1e-9 m input rounding). "
       "The inverse is decided by closure against a forward that is decided exactly; inverse points are seeded samples.",
